@@ -368,6 +368,9 @@ func c19History(rt *rapid.T) {
 		next.Invalid = false
 		nextNode := certNode
 		what := rapid.SampledFrom([]string{"identical", "settings-only", "settings-only", "new-rules", "new-rules", "revert", "edit-rules", "invalid", "cert-unsafe", "dlca", "many-then-new-rules"}).Draw(rt, "reloadKind")
+		if what == "many-then-new-rules" && rapid.IntRange(0, 4).Draw(rt, "manyGate") != 0 {
+			what = "new-rules" // the burst costs hundreds of reloads: keep it to about one reload step in fifty
+		}
 		switch what {
 		case "many-then-new-rules":
 			// an operator's SIGHUP habit: N reloads that each flip a non-rule setting, then one that changes
